@@ -10,6 +10,7 @@ warnings.simplefilter('ignore')
 np.seterr(all='ignore')
 
 MISSING = '<missing>'
+LIGHT = set()      # (class, label) of the option / dtype settings: fewer switch experiments per setting in the quick tier
 _TABLES = None
 
 
@@ -56,6 +57,9 @@ def canon(v, h, depth=0):
             for x in a.reshape(-1):
                 canon(x, h, depth + 1)
         else:
+            if a.dtype.kind in 'fc':
+                a = a + 0          # -0.0 and +0.0 are the same value (which one a sum of exact zeros yields depends on
+                #                    the SIMD path numpy takes for the buffer's alignment, i.e. on the process)
             h.update(np.ascontiguousarray(a).tobytes())
     elif isinstance(v, (tuple, list)):
         h.update(('L%d(' % len(v)).encode())
@@ -69,9 +73,9 @@ def canon(v, h, depth=0):
             canon(v[k], h, depth + 1)
         h.update(b')')
     elif isinstance(v, (np.generic,)):
-        h.update(('S%s' % v.dtype.str).encode() + np.asarray(v).tobytes())
+        h.update(('S%s' % v.dtype.str).encode() + (np.asarray(v) + 0 if v.dtype.kind in 'fc' else np.asarray(v)).tobytes())
     elif isinstance(v, (int, str, bool, type(None), float, complex)):
-        h.update(('P%s:%r' % (type(v).__name__ if not isinstance(v, float) else 'float', float(v) if isinstance(v, float) and not isinstance(v, bool) else v)).encode())
+        h.update(('P%s:%r' % (type(v).__name__ if not isinstance(v, float) else 'float', (float(v) + 0.0) if isinstance(v, float) and not isinstance(v, bool) else v)).encode())
     elif callable(v):
         h.update(('F:%s' % getattr(v, '__name__', type(v).__name__)).encode())
     else:
@@ -169,11 +173,38 @@ def settings(seed, tier):
     def add(cls, label, f):
         S.append((cls, label, f))
 
-    def simple(cls, label, ctor, **kw):
+    def simple(cls, label, ctor, conv=None, **kw):
         def b(variant=0, input=None):
-            x = inp(cls + label, variant, **kw) if input is None else input
+            if input is None:
+                x = inp(cls + label, variant, **kw)
+                if conv is not None:
+                    x = conv(x)
+            else:
+                x = input
             return ctor(x), [x]
         add(cls, label, b)
+
+    def as_kind(kind):
+        """the same recording stored as another dtype / layout (L1)"""
+        def f(x):
+            d = np.asarray(x.data)
+            if kind == 'int16':
+                d = np.round(d * 1000).astype(np.int16)
+            elif kind == 'int64':
+                d = np.round(d * 1000).astype(np.int64)
+            elif kind == 'uint8':
+                d = np.round((d - d.min()) / (d.max() - d.min()) * 200 + 20).astype(np.uint8)
+            elif kind == 'float32':
+                d = d.astype(np.float32)
+            elif kind == 'readonly':
+                d = d.copy()
+                d.flags.writeable = False
+            elif kind == '3d':
+                d = np.stack([d, d[::-1] * 0.5])
+            elif kind == 'fortran':
+                d = np.asfortranarray(d)
+            return ts.TimeSeries(d, sampling_rate=x.sampling_rate)
+        return f
 
     simple('CoherenceAnalyzer', 'welch32', lambda x: na.CoherenceAnalyzer(x, method=dict(this_method='welch', NFFT=32, n_overlap=16)))
     simple('CoherenceAnalyzer', 'welch32-unwrap', lambda x: na.CoherenceAnalyzer(x, method=dict(this_method='welch', NFFT=32, n_overlap=16), unwrap_phases=True))
@@ -220,8 +251,9 @@ def settings(seed, tier):
     def seedcoh(label, two_d, **kw):
         def b(variant=0, input=None):
             rs = _rs(seed, 'SeedCoh' + label + ('/v%d' % variant if variant else ''))
-            tgt = _series(rs, 3, N, 0.5)
-            sd = _series(rs, 2, N, 0.5) if two_d else _series(rs, 1, N, 0.5, one_d=True)
+            rate = 1.25 if variant == 3 else 0.5
+            tgt = _series(rs, 3, N, rate)
+            sd = _series(rs, 2, N, rate) if two_d else _series(rs, 1, N, rate, one_d=True)
             kw2 = dict(kw)
             if 'method' in kw2:
                 kw2['method'] = dict(kw2['method'])
@@ -277,6 +309,33 @@ def settings(seed, tier):
         add('TimeSeries', label, b)
     series('plain')
     series('rate2.5-1d', rate=2.5, one_d=True)
+    # ---- L3: every constructor option with a non-default and with a falsy value
+    n_core = len(S)
+    import nitime.utils as tsu
+    simple('MTCoherenceAnalyzer', 'alpha', lambda x: na.MTCoherenceAnalyzer(x, alpha=0.1, bandwidth=None, adaptive=True), n=64)
+    simple('SparseCoherenceAnalyzer', 'default-noscale', lambda x: na.SparseCoherenceAnalyzer(x, ij=[(0, 1), (0, 2)], scale_by_freq=False, lb=0.0, ub=None))
+    simple('SparseCoherenceAnalyzer', 'default', lambda x: na.SparseCoherenceAnalyzer(x, ij=[(0, 1), (1, 2)]))
+    seedcoh('noscale-slow', True, method=dict(this_method='welch', NFFT=32, n_overlap=8), lb=0.0, ub=0.2, prefer_speed_over_memory=False, scale_by_freq=False)
+    simple('GrangerAnalyzer', 'aic-maxorder', lambda x: na.GrangerAnalyzer(x, order=None, ij=[(0, 2)], n_freqs=16, max_order=8,
+                                                                          criterion=tsu.akaike_information_criterion))
+    simple('SNRAnalyzer', 'highbias', lambda x: na.SNRAnalyzer(x, low_bias=False, adaptive=False, bandwidth=None), nch=4, n=64)
+    simple('SpectralAnalyzer', 'highbias', lambda x: na.SpectralAnalyzer(x, method=None, BW=None, adaptive=False, low_bias=False), n=64)
+    simple('MorletWaveletAnalyzer', 'sd', lambda x: na.MorletWaveletAnalyzer(x, freqs=np.array([0.1, 0.25]), sd_rel=0.3, log_spacing=False, log_morlet=False), one_d=True)
+    simple('MorletWaveletAnalyzer', 'sd-abs', lambda x: na.MorletWaveletAnalyzer(x, freqs=0.2, sd=0.05), one_d=True)
+    simple('CoherenceAnalyzer', 'falsy', lambda x: na.CoherenceAnalyzer(x, method=None, unwrap_phases=False))
+    filt('cheby-hann', lb=0.0, ub=0.3, boxcar_iterations=3, gpass=2, gstop=40, iir_ftype='cheby1', fir_win='hann')
+    era('ts-events-offset0', False, correct_baseline=False, zscore=False, offset=0)
+    # ---- L1: recordings that are not float64 C-contiguous 2-d arrays
+    simple('CorrelationAnalyzer', 'int16', lambda x: na.CorrelationAnalyzer(x), conv=as_kind('int16'), n=48)
+    simple('NormalizationAnalyzer', 'uint8', lambda x: na.NormalizationAnalyzer(x), conv=as_kind('uint8'), n=32)
+    simple('NormalizationAnalyzer', '3d', lambda x: na.NormalizationAnalyzer(x), conv=as_kind('3d'), n=32)
+    simple('SpectralAnalyzer', 'float32', lambda x: na.SpectralAnalyzer(x, method=dict(this_method='welch', NFFT=32)), conv=as_kind('float32'), n=64)
+    simple('SpectralAnalyzer', 'int64-3d', lambda x: na.SpectralAnalyzer(x, method=dict(this_method='welch', NFFT=32)), conv=lambda x: as_kind('3d')(as_kind('int64')(x)), n=64)
+    simple('HilbertAnalyzer', 'readonly', lambda x: na.HilbertAnalyzer(x), conv=as_kind('readonly'))
+    simple('CoherenceAnalyzer', 'readonly-fortran', lambda x: na.CoherenceAnalyzer(x, method=dict(this_method='welch', NFFT=32, n_overlap=8)), conv=lambda x: as_kind('readonly')(as_kind('fortran')(x)))
+    simple('GrangerAnalyzer', 'float32', lambda x: na.GrangerAnalyzer(x, order=2, n_freqs=16), conv=as_kind('float32'))
+    simple('SNRAnalyzer', 'int16', lambda x: na.SNRAnalyzer(x), conv=as_kind('int16'), nch=4, n=64)
+    LIGHT.update((c, l) for (c, l, _) in S[n_core:])
     return S
 
 
